@@ -31,6 +31,7 @@
      modelled: accepted when the value equals the model's.
    * a thread whose heap is not initialised skips _mi_segment_attempt_reclaim after the load in mi_free_block_mt: the model's
      second load (Fr2, heur = false, no effect) is then taken without a log record.
+   * segment->abandoned_visits (private to the holder) is compared with the model's g_visits when the holder stores thread_id.
    * abandoned_os_list_count and arena->abandoned_visit_lock are not in the model: ignored.
    * a segment freed by its owner after the last local free (`D` for an owned segment) has no model transition: the
      segment is marked freed (owner-private, like malloc).
@@ -103,10 +104,11 @@ let lockstep records mismatches =
   let gtab : (int, gsum) Hashtbl.t = Hashtbl.create 64 in
   let arena_pos : (int, int * int) Hashtbl.t = Hashtbl.create 64 in      (* segment -> (arena, block index) *)
   let dead : (int, unit) Hashtbl.t = Hashtbl.create 64 in
+  let fresh : (int, unit) Hashtbl.t = Hashtbl.create 64 in             (* registered, no G record yet *)
   let hist : (string, int) Hashtbl.t = Hashtbl.create 64 in
   let lineno = ref 0 and steps = ref 0 and inv_checked = ref 0 and maxset = ref 1 and reported = ref 0 in
   let skipped_loads = ref 0 and stale_ands = ref 0 and stutter = ref 0 and owner_frees = ref 0 and field_loads = ref 0 and ignored = ref 0 in
-  let model_steps = ref 0 and truncated = ref 0 in
+  let model_steps = ref 0 and truncated = ref 0 and visits_bad = ref 0 in
   let stopped = ref false in
   let curline = ref "" in
   let describe (c : A.state) (segs : int list) =
@@ -209,6 +211,14 @@ let lockstep records mismatches =
       | A.FrP s, "delayed" when int_of_nat s = e.id -> upd_seg c e.id (fun sg -> { sg with A.g_flag = A.coq_USE })
       | _ -> c in
     let th = thread c t in
+    (* segment->abandoned_visits is private to the holder: compared when the holder stores thread_id *)
+    let visits_ok = match pc with
+      | A.Ab2 s | A.Rc1 (s, _) | A.Fr4b s | A.Fr3q s when e.loc = "tid" && e.k = "W" ->
+        (match seg_opt c (int_of_nat s), Hashtbl.find_opt gtab (int_of_nat s) with
+         | Some sg, Some g -> if i_of_n sg.A.g_visits = g.v then true else (incr visits_bad; false)
+         | _ -> true)
+      | _ -> true in
+    if not visits_ok then [] else
     match A.exec c (nat_of_int t) th with
     | None -> []
     | Some o ->
@@ -269,15 +279,18 @@ let lockstep records mismatches =
       incr lineno; curline := line;
       if not !stopped then
       match split_ws line with
-      | ["H"; r; nt] ->
+      | "H" :: r :: nt :: sps ->
         incr records;
         rof := (r <> "0"); nthreads := int_of_string nt;
-        cands := [(A.mk_state [] [] [] (L.init !nthreads (fun _ -> (N0, []))), [])]
+        let sp_of t = match L.nth_opt sps t with Some x -> n (int_of_string x) | None -> N0 in
+        cands := [(A.mk_state [] [] [] (L.init !nthreads (fun t -> (sp_of t, []))), [])]
       | "N" :: s :: arena :: tid :: marked :: rest ->
         incr records;
         let s = int_of_string s and arena = arena = "1" and tid = int_of_string tid and marked = marked = "1" in
-        (match rest with [a; b] -> Hashtbl.replace arena_pos s (int_of_string a, int_of_string b) | _ -> ());
-        let g = { A.g_arena = arena; g_subproc = N0; g_tid = n tid; g_bit = arena && marked; g_flag = (if tid = 0 then A.coq_NEVER else A.coq_USE);
+        let sp = match rest with [_; _; sp] -> int_of_string sp | _ -> 0 in
+        (match rest with a :: b :: _ -> Hashtbl.replace arena_pos s (int_of_string a, int_of_string b) | _ -> ());
+        Hashtbl.replace fresh s ();
+        let g = { A.g_arena = arena; g_subproc = n sp; g_tid = n tid; g_bit = arena && marked; g_flag = (if tid = 0 then A.coq_NEVER else A.coq_USE);
                   g_live = n 1; g_tfree = N0; g_delayed = N0; g_visits = (if tid = 0 then n 1 else N0); g_freed = false; g_holder = None } in
         if L.exists (fun (c, _) -> L.length c.A.segs <> s) !cands then fail "segment numbers are not consecutive"
         else begin
@@ -288,6 +301,10 @@ let lockstep records mismatches =
         let s = int_of_string s in
         let g = { u = int_of_string u; tf = int_of_string tf; nv = (nv = "1"); lv = int_of_string lv; v = int_of_string v } in
         Hashtbl.replace gtab s g;
+        if Hashtbl.mem fresh s then begin
+          Hashtbl.remove fresh s;
+          mapc (fun c -> upd_seg c s (fun sg -> { sg with A.g_visits = n g.v }))
+        end;
         mapc (fun c -> gsync c s g)
       | "A" :: t :: call :: rest ->
         incr records;
@@ -381,9 +398,10 @@ let lockstep records mismatches =
            let v = int_of_string o in
            if visit_modes t = [] then fail (Printf.sprintf "thread %d loads abandoned_count outside a cursor (call: %s)" t ctxs.(t).call)
            else begin
-             let next = filterc (fun c -> int_of_z (A.get_count c.A.acount N0) = v) in
+             let sp = n (int_of_string id) in
+             let next = filterc (fun c -> int_of_z (A.get_count c.A.acount sp) = v) in
              if next = [] then fail (Printf.sprintf "abandoned_count is %d in the implementation and %s in the model" v
-                                       (match !cands with (c, _) :: _ -> string_of_int (int_of_z (A.get_count c.A.acount N0)) | [] -> "?"))
+                                       (match !cands with (c, _) :: _ -> string_of_int (int_of_z (A.get_count c.A.acount sp)) | [] -> "?"))
              else cands := next
            end
          | _ ->
@@ -399,13 +417,15 @@ let lockstep records mismatches =
            if fired = [] && skipped <> [] then incr skipped_loads;
            if loc = "tid" && k = "L" && ctxs.(t).call = "free" && ctxs.(t).cseg = e.id && fired <> [] then ctxs.(t).started <- true;
            let next = dedupe (fired @ skipped) in
-           if next = [] then fail ~segs:[e.id] (Printf.sprintf "the model thread %d (call: %s) cannot perform this access" t ctxs.(t).call)
+           if next = [] then fail ~segs:[e.id] (Printf.sprintf "the model thread %d (call: %s) cannot perform this access%s" t ctxs.(t).call
+                                                  (if !visits_bad > 0 then " (or segment->abandoned_visits differs from the model's g_visits)" else ""))
            else begin
              commit next;
              (match loc, k, rest with
               | "lock", "U", _ ->
                 (* the abandoned OS list at the release *)
-                let ok = filterc (fun c -> L.map int_of_nat c.A.os_list = ids) in
+                let mine (c : A.state) = L.filter (fun x -> i_of_n (A.subproc_of c (nat_of_int x)) = e.id) (L.map int_of_nat c.A.os_list) in
+                let ok = filterc (fun c -> mine c = ids) in
                 if ok = [] then fail (Printf.sprintf "abandoned_os_list is [%s] in the implementation and [%s] in the model" (String.concat " " (L.map string_of_int ids))
                                         (match !cands with (c, _) :: _ -> String.concat " " (L.map (fun x -> string_of_int (int_of_nat x)) c.A.os_list) | [] -> "?"))
                 else cands := ok
@@ -421,7 +441,7 @@ let lockstep records mismatches =
     let fin = filterc (fun c -> A.quiescent c && L.for_all (fun th -> th.A.t_prog = []) c.A.threads) in
     if fin = [] then fail "at the end of the log a model thread is inside a call or holds a lock"
     else begin
-      let ok = L.filter (fun (c, _) -> A.count_ok_b c [N0]) fin in
+      let ok = L.filter (fun (c, _) -> A.count_ok_b c [N0; n 1]) fin in
       if ok = [] then fail (Printf.sprintf "at quiescence abandoned_count (%d) differs from the number of marked segments"
                               (int_of_z (A.get_count (fst (L.hd fin)).A.acount N0)));
       if not (L.exists (fun (c, _) -> freed_ok c) fin) then fail "a segment freed in the model is still allocated in the implementation"
